@@ -135,7 +135,8 @@ package inode
 //@   preserves [allocInv] allocInv() @C15 @C04
 //@   decreases level
 //@   allocates buf.Buf, marshal.Enc, marshal.Dec, cell:uint64
-//@   modifies abits, atxn.allocBnums, atxn.allocBnums[*], []uint8, buf.Buf.dirty
+//@   modifies abits, atxn.allocBnums, atxn.allocBnums[*], []uint8@buf.Buf.Data, buf.Buf.dirty
+//@   ensures [ibits-same] abits[theIalloc] == old(abits)[theIalloc] @C05
 //@   ensures [I1-result] (result0 == 0 || validBlk(result0)) && (result1 == 0 || validBlk(result1)) @C04 @C11
 //@   ensures [Fn4-root] root_ != 0 ==> result1 == root_ @C02
 //@   ensures listsValid(atxn) && listsStable(atxn)
@@ -146,7 +147,8 @@ package inode
 //@   requires [Q3-range] bn < 8 + 512 + 512*512 @C19 @C11
 //@   preserves [allocInv] allocInv() @C15 @C04
 //@   allocates buf.Buf, marshal.Enc, marshal.Dec, cell:uint64
-//@   modifies ip.blks[*], dirtyinum, abits, atxn.allocBnums, []uint64@alloctxn.AllocTxn.allocBnums, []uint8, buf.Buf.dirty
+//@   modifies ip.blks[*], dirtyinum, abits, atxn.allocBnums, []uint64@alloctxn.AllocTxn.allocBnums, []uint8@buf.Buf.Data, buf.Buf.dirty
+//@   ensures [ibits-same] abits[theIalloc] == old(abits)[theIalloc] @C05
 //@   ensures [I1-result] result0 == 0 || validBlk(result0) @C04 @C11
 //@   ensures [I1-inode] inodeInv(ip) @C04
 //@   ensures [lists-valid] listsValid(atxn) && listsStable(atxn)
@@ -162,7 +164,8 @@ package inode
 //@   requires locked(ip) && inodeInv(ip) && txnOK(atxn)
 //@   preserves [allocInv] allocInv() @C15 @C04
 //@   allocates buf.Buf, marshal.Enc, marshal.Dec, cell:uint64
-//@   modifies ip.Size, ip.blks[*], dirtyinum, wroteinum, abits, atxn.allocBnums, []uint64@alloctxn.AllocTxn.allocBnums, []uint8, buf.Buf.dirty
+//@   modifies ip.Size, ip.blks[*], dirtyinum, wroteinum, abits, atxn.allocBnums, []uint64@alloctxn.AllocTxn.allocBnums, []uint8@buf.Buf.Data, buf.Buf.dirty
+//@   ensures [ibits-same] abits[theIalloc] == old(abits)[theIalloc] @C05
 //@   ensures [Q3-refuse] (offset + count < offset || offset + count > 1073774592 || len(dataBuf) < count) ==> result0 == 0 && !result1 && ip.Size == old(ip.Size) && dirtyinum == old(dirtyinum) && abits == old(abits) @C19 @C11 @C09
 //@   ensures [Fn2-count] result0 <= count @C02
 //@   ensures [Fn2-prefix] result0 == count || result0 == 0 || (offset + result0) & 4095 == 0 @C02
@@ -177,8 +180,10 @@ package inode
 //@   loop 0 invariant inodeInv(ip) && listsValid(atxn) && listsStable(atxn) && allocInv() && ip.Size == old(ip.Size)
 //@   loop 0 invariant (!alloc ==> dirtyinum == old(dirtyinum)) && (alloc ==> cnt > 0) && othersClean(ip)
 //@   loop 0 decreases n
+//@   loop 0 invariant [ibits] abits[theIalloc] == old(abits)[theIalloc]
 //@   loop 1 invariant b <= nbytes && len(buffer.Data) == 4096
 //@   loop 1 decreases nbytes - b
+//@   loop 1 invariant [ibits] abits[theIalloc] == old(abits)[theIalloc]
 
 //@ spec (*Inode).Read
 //@   props C02 C10 C11 C04
@@ -186,7 +191,8 @@ package inode
 //@   requires [count32] bytesToRead <= 4294967296 @C11
 //@   preserves [allocInv] allocInv() @C15 @C04
 //@   allocates buf.Buf, marshal.Enc, marshal.Dec, cell:uint64, []uint8
-//@   modifies ip.blks[*], dirtyinum, wroteinum, abits, atxn.allocBnums, []uint64@alloctxn.AllocTxn.allocBnums, []uint8, buf.Buf.dirty
+//@   modifies ip.blks[*], dirtyinum, wroteinum, abits, atxn.allocBnums, []uint64@alloctxn.AllocTxn.allocBnums, []uint8@buf.Buf.Data, buf.Buf.dirty
+//@   ensures [ibits-same] abits[theIalloc] == old(abits)[theIalloc] @C05
 //@   ensures [Fn1-past-eof] offset >= ip.Size ==> len(result0) == 0 && result1 @C02
 //@   ensures [Fn1-len] len(result0) <= bytesToRead && (offset < ip.Size ==> len(result0) <= ip.Size - offset) @C02 @C11
 //@   ensures [Fn1-eof] result1 <==> offset + len(result0) >= ip.Size @C02
@@ -202,8 +208,10 @@ package inode
 //@   loop 0 invariant inodeInv(ip) && listsValid(atxn) && listsStable(atxn) && allocInv() && ip.Size == old(ip.Size)
 //@   loop 0 invariant (!dirtyinum[ip.Inum] || old(dirtyinum)[ip.Inum]) && othersClean(ip)
 //@   loop 0 decreases count - n
+//@   loop 0 invariant [ibits] abits[theIalloc] == old(abits)[theIalloc]
 //@   loop 1 invariant b <= nbytes && len(data) == n + b && len(buf.Data) == 4096
 //@   loop 1 decreases nbytes - b
+//@   loop 1 invariant [ibits] abits[theIalloc] == old(abits)[theIalloc]
 
 // F1-F3 (C05), Z1/Z3/Z6 (C12), R7 (C01): freeing. Shrink lowers the frontier
 // ShrinkSize one block at a time, frees what it passes and persists the
@@ -214,7 +222,7 @@ package inode
 //@   requires locked(ip) && inodeInv(ip) && txnOK(op)
 //@   requires [index] index < 10 @C11
 //@   allocates buf.Buf
-//@   modifies ip.blks[*], dirtyinum, buf.Buf.dirty, []uint8, op.freeBnums, []uint64@alloctxn.AllocTxn.freeBnums
+//@   modifies ip.blks[*], dirtyinum, buf.Buf.dirty, []uint8@buf.Buf.Data, op.freeBnums, []uint64@alloctxn.AllocTxn.freeBnums
 //@   ensures [F3-cleared] ip.blks[index] == 0 && (forall k uint64 :: k < 10 && k != index ==> ip.blks[k] == old(ip.blks[k])) @C05
 //@   ensures [I1-inode] inodeInv(ip) @C04
 //@   ensures listsValid(op) && listsStable(op) && othersClean(ip)
@@ -226,7 +234,7 @@ package inode
 //@   requires [Fn4-range] inRange(level, bn) @C11
 //@   decreases level
 //@   allocates buf.Buf, marshal.Enc, marshal.Dec, cell:uint64
-//@   modifies buf.Buf.dirty, []uint8, op.freeBnums, []uint64@alloctxn.AllocTxn.freeBnums
+//@   modifies buf.Buf.dirty, []uint8@buf.Buf.Data, op.freeBnums, []uint64@alloctxn.AllocTxn.freeBnums
 //@   ensures [F3-rootornull] result == 0 || result == root @C05
 //@   ensures listsValid(op) && listsStable(op)
 
@@ -234,7 +242,7 @@ package inode
 //@   props C05 C01 C04 C10 C11 C06 C12
 //@   requires locked(ip) && inodeInv(ip) && txnOK(op)
 //@   allocates buf.Buf, marshal.Enc, marshal.Dec, cell:uint64, []uint8
-//@   modifies ip.ShrinkSize, ip.blks[*], dirtyinum, wroteinum, buf.Buf.dirty, []uint8, op.freeBnums, []uint64@alloctxn.AllocTxn.freeBnums
+//@   modifies ip.ShrinkSize, ip.blks[*], dirtyinum, wroteinum, buf.Buf.dirty, []uint8@buf.Buf.Data, op.freeBnums, []uint64@alloctxn.AllocTxn.freeBnums
 //@   ensures [F2-more] result <==> ip.IsShrinking() @C05
 //@   ensures [R7-persisted] !dirtyinum[ip.Inum] && othersClean(ip) @C01 @C10
 //@   ensures [F3-monotone] ip.ShrinkSize <= old(ip.ShrinkSize) && ip.Size == old(ip.Size) @C05
@@ -249,11 +257,13 @@ package inode
 //@   requires [below] sz < ip.Size @C11
 //@   preserves [allocInv] allocInv() @C15 @C04
 //@   allocates buf.Buf, marshal.Enc, marshal.Dec, cell:uint64
-//@   modifies ip.blks[*], dirtyinum, abits, atxn.allocBnums, []uint64@alloctxn.AllocTxn.allocBnums, []uint8, buf.Buf.dirty
+//@   modifies ip.blks[*], dirtyinum, abits, atxn.allocBnums, []uint64@alloctxn.AllocTxn.allocBnums, []uint8@buf.Buf.Data, buf.Buf.dirty
+//@   ensures [ibits-same] abits[theIalloc] == old(abits)[theIalloc] @C05
 //@   ensures [I1-inode] inodeInv(ip) && ip.Size == old(ip.Size) && ip.ShrinkSize == old(ip.ShrinkSize) @C04
 //@   ensures listsValid(atxn) && listsStable(atxn) && othersClean(ip)
 //@   loop 0 invariant b <= 4096 && len(buf.Data) == 4096
 //@   loop 0 decreases 4096 - b
+//@   loop 0 invariant [ibits] abits[theIalloc] == old(abits)[theIalloc]
 
 //@ spec (*Inode).Resize
 //@   props C05 C02 C04 C10 C11 C12 C19
@@ -261,7 +271,8 @@ package inode
 //@   requires [Q3-max] sz <= 1073774592 @C19 @C11
 //@   preserves [allocInv] allocInv() @C15 @C04
 //@   allocates buf.Buf, marshal.Enc, marshal.Dec, cell:uint64, []uint8
-//@   modifies ip.Size, ip.ShrinkSize, ip.blks[*], dirtyinum, wroteinum, abits, atxn.allocBnums, []uint64@alloctxn.AllocTxn.allocBnums, atxn.freeBnums, []uint64@alloctxn.AllocTxn.freeBnums, []uint8, buf.Buf.dirty
+//@   modifies ip.Size, ip.ShrinkSize, ip.blks[*], dirtyinum, wroteinum, abits, atxn.allocBnums, []uint64@alloctxn.AllocTxn.allocBnums, atxn.freeBnums, []uint64@alloctxn.AllocTxn.freeBnums, []uint8@buf.Buf.Data, buf.Buf.dirty
+//@   ensures [ibits-same] abits[theIalloc] == old(abits)[theIalloc] @C05
 //@   ensures [Fn3-size] ip.Size == sz @C02
 //@   ensures [F2-more] result <==> ip.IsShrinking() @C05
 //@   ensures [S1-synced] !dirtyinum[ip.Inum] && othersClean(ip) @C10
